@@ -58,6 +58,9 @@ FILTERS = {
 COLLECTIONS = {
     "coll_global": [{"action": "global", "title": "g", "logsource": {"category": "c"}}, {"detection": {"sel": {"f": 1}, "condition": "sel"}}, {"action": "repeat", "detection": {"sel": {"f": 2}}}, {"action": "reset"}, copy.deepcopy(R_MIN)],
     "coll_mixed": [copy.deepcopy(R_FULL), copy.deepcopy(CORRS["event_count"]), copy.deepcopy(FILTERS["filter_any"])],
+    # documents that already carry one error each: every further deviation must leave the FIRST error (document order) in front
+    "coll_bad_first": [dict(copy.deepcopy(R_MIN), level="nope"), copy.deepcopy(R_MIN), dict(copy.deepcopy(FILTERS["filter_any"]), title="f2")],
+    "coll_bad_each": [dict(copy.deepcopy(R_MIN), status="nope"), dict(copy.deepcopy(CORRS["event_count"]), level="nope"), dict(copy.deepcopy(FILTERS["filter_any"]), date="nope"), copy.deepcopy(R_MIN)],
 }
 DOCS = {"rule_min": ("rule", R_MIN), "rule_full": ("rule", R_FULL)}
 DOCS.update({"corr_" + k: ("correlation", v) for k, v in CORRS.items()})
@@ -66,7 +69,7 @@ DOCS.update({k: ("collection", v) for k, v in COLLECTIONS.items()})
 
 DELETE = ("<delete>",)
 REPL = [DELETE, None, True, 0, -1, 1.5, "", "x", "1", [], ["x"], [1], [None], {}, {"k": "v"}, {1: 2}, datetime.date(2020, 1, 1), [[]],
-        "2024-13-45", "not-a-uuid", "5x", "1 of", "and", {"gte": "x"}, {"field": 1}, [{"id": 1}], "critical!", 10**30]
+        "2024-13-45", "2023-02-30", "2021/2/30", "not-a-uuid", "5x", "1 of", "and", {"gte": "x"}, {"field": 1}, [{"id": 1}], "critical!", 10**30]
 SMALL = ["rule_min", "corr_event_count", "filter_any"]
 
 
